@@ -9,9 +9,9 @@ import CpModel.Enum
   What lies outside the model is reported as the pseudo-error `crash "UNMODELLED"`:
     * labels that leave the ASCII fast path of CPython's `idna` codec (a byte ≥ 0x80, or the ACE
       prefix `xn--` anywhere in the label): nameprep/punycode are library behaviour;
-    * RSA moduli, DSA primes and EC coordinates within 2⁻³² (relative) of a power of 256 once they
-      are ≥ 2³²: the key size is asn1crypto's `ceil(math.log(v, 2))`, a float computation that is
-      exact away from powers of two only (`floatRisk`).
+    * EC coordinates within 2⁻³² (relative) of a power of 256 once they are ≥ 2³²: the point is sized
+      by asn1crypto's `ceil(math.log(v, 2) / 8)`, a float computation that is exact away from powers
+      of two only (`floatRisk`).  (RSA moduli and DSA primes are sized by `bit_length()`.)
 
   Constants that `tools/extract.py` does not regenerate (`DnsSecProtocol.V3`, the `HEADER_SIZE`s,
   the key type and curve size per algorithm, the private RR type range) are written down here and
@@ -26,7 +26,7 @@ def unmodelled : PErr := .crash "UNMODELLED"
 
 def dnskeyHeaderSize : Nat := 4
 def dsHeaderSize : Nat := 4
-def rrsigHeaderSize : Nat := 24
+def rrsigHeaderSize : Nat := 18
 def mxHeaderSize : Nat := 2
 def txtHeaderSize : Nat := 1
 /-- `DnsSecProtocol` members -/
@@ -45,8 +45,8 @@ inductive KeyKind where
 deriving Repr, DecidableEq
 
 /-- `dnssec_algorithm.value.algorithm.value.key_type` and the dispatch of `parse_key`, by algorithm
-code.  `DELETE` (no algorithm) and `DH` (a key exchange, which has no `key_type`) have none: the
-attribute access raises `AttributeError`. -/
+code.  `DELETE` (no algorithm) and `DH` (a key exchange, not a `Signature`) have none: `parse_key`
+raises `InvalidValue(..., 'algorithm_type')` for them, as the constructor does. -/
 def keyKindOfCode : Nat → Option KeyKind
   | 1 | 5 | 7 | 8 | 10 => some .rsa
   | 3 | 6 => some .dsa
@@ -79,18 +79,27 @@ def hasAce : Bytes → Bool
 /-- the label stays on the ASCII fast path of the `idna` codec in both directions -/
 def labelModelled (l : Bytes) : Bool := l.all (fun x => x.toNat < 0x80) && !hasAce l
 
-/-- the length checks of `encodings.idna.Codec.encode` on its ASCII fast path: the text is split at
-`.`; every piece but the last must be 1..63 bytes long, the last one at most 63 (`cur` = length of
-the piece being scanned) -/
-def idnaPieces (cur : Nat) : Bytes → Bool
-  | [] => cur < 64
-  | x :: xs => if x.toNat == 0x2e then (0 < cur && cur < 64) && idnaPieces 0 xs else idnaPieces (cur + 1) xs
+/-- `'.' in label` -/
+def hasDot (l : Bytes) : Bool := l.any (fun x => x.toNat == 0x2e)
 
-/-- `parser.parse_string('label', 1, encoding='idna')`: one length byte, that many bytes
-(`NotEnoughData(missing)`), decoded with the `idna` codec -/
+/-- RFC 1035 §2.3.4 -/
+def maxLabelSize : Nat := 63
+/-- `DnsNameUncompressed.MAX_SIZE` (RFC 1035 §2.3.4) -/
+def maxNameSize : Nat := 255
+
+/-- what `_parse_label` (on parse) and `compose` (before and inside `compose_string(label, 'idna', 1)`)
+refuse with `InvalidValue`: a label holding the label separator, and — the length check of
+`encodings.idna.Codec.encode` on its ASCII fast path, which for a text without a dot is one piece —
+a label of 64 octets or more -/
+def labelRefused (l : Bytes) : Bool := hasDot l || maxLabelSize < l.length
+
+/-- `parser.parse_string('label', 1, encoding='idna', converter=cls._parse_label)`: one length byte,
+that many bytes (`NotEnoughData(missing)`), decoded with the `idna` codec, then checked -/
 def parseLabel (bs : Bytes) : Except PErr (Bytes × Nat) := do
   let (l, n) ← parseBytes .network 1 bs
-  if labelModelled l then pure (l, n) else .error unmodelled
+  if !labelModelled l then .error unmodelled
+  else if labelRefused l then .error .invalidValue
+  else pure (l, n)
 
 /-- the `while True` loop of `DnsNameUncompressed._parse`; every round consumes at least the length
 byte, so `len + 1` rounds of fuel are never exhausted -/
@@ -103,21 +112,23 @@ def parseLabels : Nat → Bytes → Except PErr (List Bytes × Nat)
       let (ls, m) ← parseLabels fuel (bs.drop n)
       pure (l :: ls, n + m)
 
-/-- `DnsNameUncompressed._parse` -/
-def parseName (bs : Bytes) : Except PErr (List Bytes × Nat) := parseLabels (bs.length + 1) bs
+/-- `DnsNameUncompressed._parse`: the labels, then the limit on the size of the whole name -/
+def parseName (bs : Bytes) : Except PErr (List Bytes × Nat) := do
+  let (ls, n) ← parseLabels (bs.length + 1) bs
+  if maxNameSize < n then .error .invalidValue else pure (ls, n)
 
-/-- `composer.compose_string(label, 'idna', 1)` -/
+/-- `if '.' in label: raise InvalidValue`, then `composer.compose_string(label, 'idna', 1)` -/
 def composeLabel (l : Bytes) : Except PErr Bytes :=
   if l.isEmpty then composeBytes .network 1 []
   else if !labelModelled l then .error unmodelled
-  else if !idnaPieces 0 l then .error .invalidValue
+  else if labelRefused l then .error .invalidValue
   else composeBytes .network 1 l
 
-/-- `DnsNameUncompressed.compose` -/
+/-- `DnsNameUncompressed.compose`: the labels, the root octet, then the limit on the size of the name -/
 def composeName (labels : List Bytes) : Except PErr Bytes := do
   let body ← composeItems composeLabel labels
   let z ← composeNum .network 1 0
-  pure (body ++ z)
+  if maxNameSize < (body ++ z).length then .error .invalidValue else pure (body ++ z)
 
 def nameCodec : Codec (List Bytes) := ⟨parseName, composeName⟩
 
@@ -274,8 +285,8 @@ deriving Repr, DecidableEq
 /-- number of base-256 digits (`(v.bit_length() + 7) // 8`) -/
 def byteLen (v : Nat) : Nat := (bitLength (v : Int) + 7) / 8
 
-/-- `ceil(log2 v) / 8` rounded up, for `v ≥ 1`: the least `n` with `v ≤ 256 ^ n` — asn1crypto's
-`bit_size // 8` and the `x_bytes` of `ECPointBitString.from_coords` computed exactly -/
+/-- `ceil(log2 v / 8)` for `v ≥ 1`: the least `n` with `v ≤ 256 ^ n` — the `x_bytes` of asn1crypto's
+`ECPointBitString.from_coords` computed exactly -/
 def clog256 (v : Nat) : Nat := byteLen (v - 1)
 
 /-- the float computation `math.log(v, 2)` may differ from the exact logarithm: `v ≥ 2^32` within a
@@ -286,24 +297,17 @@ def floatRisk (v : Nat) : Bool :=
     let t := 256 ^ (byteLen v - 1)
     (v - t) * 2 ^ 32 ≤ t || (256 * t - v) * 2 ^ 32 ≤ 256 * t
 
-/-- `PublicKeyInfo.bit_size // 8` for RSA (modulus) and DSA (prime): `math.log(0, 2)` is a
-`ValueError` -/
-def keyBytesOfModulus (m : Nat) : Except PErr Nat :=
-  if m = 0 then .error (.crash "ValueError")
-  else if floatRisk m then .error unmodelled
-  else .ok (clog256 m)
-
 /-- the coordinate width chosen by `ECPointBitString.from_coords(x, y)`: `math.log(0, 2)` is a
-`ValueError`; a coordinate equal to `256 ^ width` does not fit `int_to_bytes(v, width=width)`
-(`OverflowError`) -/
+`ValueError`, and a coordinate equal to `256 ^ width` does not fit `int_to_bytes(v, width=width)`
+(`OverflowError`); `_parse_public_key_ecdsa` turns both into `InvalidValue` -/
 def ecWidth (x y : Nat) : Except PErr Nat :=
-  if x = 0 then .error (.crash "ValueError")
-  else if y = 0 then .error (.crash "ValueError")
+  if x = 0 then .error .invalidValue
+  else if y = 0 then .error .invalidValue
   else if floatRisk x || floatRisk y then .error unmodelled
   else
     let w := max (clog256 x) (clog256 y)
-    if 256 ^ w ≤ x then .error (.crash "OverflowError")
-    else if 256 ^ w ≤ y then .error (.crash "OverflowError")
+    if 256 ^ w ≤ x then .error .invalidValue
+    else if 256 ^ w ≤ y then .error .invalidValue
     else .ok w
 
 /-- the exponent length of `_parse_public_key_rsa`: one octet, or — when that octet is zero — the
@@ -315,15 +319,17 @@ def parseRsaExpLen (kb : Bytes) : Except PErr (Nat × Nat) := do
     pure (v, n1 + n)
   else pure (l1, n1)
 
-/-- `_parse_public_key_rsa` on the key bytes; with the key, the number of key bytes the key parser
-has read (`key_parser.parsed_length`, which the caller ignores) -/
+/-- `_parse_public_key_rsa` on the key bytes: an exponent or a modulus of zero (no octets, or zero
+octets only) is an `InvalidValue`; with the key, the number of key bytes the key parser has read
+(`key_parser.parsed_length`) -/
 def parseKeyRsa (kb : Bytes) : Except PErr (Key × Nat) := do
   let (el, n2) ← parseRsaExpLen kb
   let (e, n3) ← parseMpint el (kb.drop n2)
   let rest := kb.drop (n2 + n3)
   let (m, n4) ← parseMpint rest.length rest
-  if floatRisk m.toNat then .error unmodelled else
-  pure (.rsa e.toNat m.toNat, n2 + n3 + n4)
+  if e.toNat = 0 then .error .invalidValue
+  else if m.toNat = 0 then .error .invalidValue
+  else pure (.rsa e.toNat m.toNat, n2 + n3 + n4)
 
 /-- `_parse_public_key_ecdsa`: two fixed-width coordinates; `PublicKey.from_params` then builds the
 point octet string with `from_coords` -/
@@ -339,28 +345,34 @@ def parseKeyEddsa (curve : Nat) (kb : Bytes) : Except PErr (Key × Nat) := do
   let (d, n) ← parseRaw (curveBytes curve : Nat) kb
   pure (.eddsa curve d, n)
 
-/-- `_parse_public_key_dss` -/
+/-- `_parse_public_key_dss`: the prime must fill the `64 + 8 * T` octets announced by `T` (its first
+octet is not zero: `p >> (8 * (mpint_length - 1)) == 0` is an `InvalidValue`, raised before G and Y
+are read) -/
 def parseKeyDsa (kb : Bytes) : Except PErr (Key × Nat) := do
   let (t, n1) ← parseNum .network 1 kb
   let (q, n2) ← parseMpint 20 (kb.drop n1)
   let w := 64 + t * 8
   let (p, n3) ← parseMpint w (kb.drop (n1 + n2))
-  let (g, n4) ← parseMpint w (kb.drop (n1 + n2 + n3))
-  let (y, n5) ← parseMpint w (kb.drop (n1 + n2 + n3 + n4))
-  if floatRisk p.toNat then .error unmodelled else
-  pure (.dsa p.toNat g.toNat q.toNat y.toNat, n1 + n2 + n3 + n4 + n5)
+  if p.toNat < 256 ^ (w - 1) then .error .invalidValue
+  else do
+    let (g, n4) ← parseMpint w (kb.drop (n1 + n2 + n3))
+    let (y, n5) ← parseMpint w (kb.drop (n1 + n2 + n3 + n4))
+    pure (.dsa p.toNat g.toNat q.toNat y.toNat, n1 + n2 + n3 + n4 + n5)
 
-/-- `DnsRecordDnskey.parse_key(parsable, dnssec_algorithm)` with the number of key bytes read -/
+/-- the key parsers of `DnsRecordDnskey.parse_key(parsable, dnssec_algorithm)` with the number of key
+bytes read; an algorithm that is not a `Signature` is an `InvalidValue` -/
 def parseKeyN (algCode : Nat) (kb : Bytes) : Except PErr (Key × Nat) :=
   match keyKindOfCode algCode with
-  | none => .error (.crash "AttributeError")
+  | none => .error .invalidValue
   | some .rsa => parseKeyRsa kb
   | some .dsa => parseKeyDsa kb
   | some (.ec g) => parseKeyEc g kb
   | some (.eddsa c) => parseKeyEddsa c kb
 
-/-- `DnsRecordDnskey.parse_key`: whatever the key parser leaves unread is ignored -/
-def parseKey (algCode : Nat) (kb : Bytes) : Except PErr Key := (parseKeyN algCode kb).map (·.1)
+/-- `DnsRecordDnskey.parse_key`: what the key parser leaves unread is `TooMuchData(unparsed_length)` -/
+def parseKey (algCode : Nat) (kb : Bytes) : Except PErr Key := do
+  let (k, n) ← parseKeyN algCode kb
+  if n < kb.length then .error (.tooMuch ((kb.length - n : Nat) : Int)) else pure k
 
 /-- the exponent length of `_compose_public_key_rsa` -/
 def composeRsaExpLen (el : Nat) : Except PErr Bytes :=
@@ -370,13 +382,12 @@ def composeRsaExpLen (el : Nat) : Except PErr Bytes :=
     pure (a ++ b)
   else composeNum .network 1 (el : Int)
 
-/-- `_compose_public_key_rsa` -/
+/-- `_compose_public_key_rsa`: exponent and modulus in `(v.bit_length() + 7) // 8` octets -/
 def composeKeyRsa (e m : Nat) : Except PErr Bytes := do
   let el := byteLen e
   let h ← composeRsaExpLen el
   let eb ← composeMpint (e : Int) el
-  let w ← keyBytesOfModulus m
-  let mb ← composeMpint (m : Int) w
+  let mb ← composeMpint (m : Int) (byteLen m)
   pure (h ++ eb ++ mb)
 
 /-- `_compose_public_key_ecdsa`: both coordinates in the width of the key's curve
@@ -387,9 +398,9 @@ def composeKeyEc (group x y : Nat) : Except PErr Bytes := do
   let b ← composeMpint (y : Int) w
   pure (a ++ b)
 
-/-- `_compose_public_key_dss` -/
+/-- `_compose_public_key_dss`: `key_size = (prime.bit_length() + 7) // 8` -/
 def composeKeyDsa (p g q y : Nat) : Except PErr Bytes := do
-  let w ← keyBytesOfModulus p
+  let w := byteLen p
   let t ← composeNum .network 1 (((w : Int) - 64) / 8)
   let qb ← composeMpint (q : Int) 20
   let pb ← composeMpint (p : Int) w
